@@ -110,7 +110,7 @@ func runPartScript(sc Script, log *Log) {
 
 func (st *partState) exec(op partOp) []Ev {
 	key := FromInts(op.K)
-	skip := []Ev{{"op": "skip", "what": op.Op}}
+	skip := []Ev{{"op": "nop", "what": op.Op}}
 	switch op.Op {
 	case "new":
 		var t part.Tree[int]
